@@ -397,6 +397,39 @@ def apply_delta(base, delta, sub=False):
 SAFE_SHAPES = [None, "verif_c14_mod.X", ["verif_c14_mod.X", "a.b"], ("a.b",), {"a.b", "c.d"}, frozenset({"a.b"}), set(), ""]
 
 
+OFFSET_SOURCES = ["file@header", "file@second"]
+_FIRST = {}
+
+
+def positioned_loader(ctx, d, source, real_file, bid, aiv, safe):
+    """A delta dumped into a file object that holds something else BEFORE it - a header (source file@header) or another,
+    different delta dumped first (file@second) - and loaded again from the position where its dump() started.
+    dump(file) writes at the current position and Delta(delta_file=file) reads from the current position, so the
+    delta that comes back has to be this one.  real_file: an on-disk file opened 'rb', else an io.BytesIO.
+    -> a function that performs the load (a fresh file object per call)"""
+    from deepdiff import DeepDiff, Delta
+    if "dump" not in _FIRST:
+        _FIRST["dump"] = Delta(DeepDiff({"first": [1, 2]}, {"first": [1, 2, 3], "x": None}), bidirectional=True).dumps()
+    buf = io.BytesIO()
+    buf.write(b"DELTALOG\x00\x01" if source == "file@header" else _FIRST["dump"])
+    offset = buf.tell()
+    d.dump(buf)
+    content = buf.getvalue()
+    fn = os.path.join(ctx.scratch, "delta_container.bin")
+
+    def load():
+        if real_file:
+            with open(fn, "wb") as f:
+                f.write(content)
+            with open(fn, "rb") as f:
+                f.seek(offset)
+                return Delta(delta_file=f, bidirectional=bid, always_include_values=aiv, safe_to_import=safe)
+        f = io.BytesIO(content)
+        f.seek(offset)
+        return Delta(delta_file=f, bidirectional=bid, always_include_values=aiv, safe_to_import=safe)
+    return load
+
+
 def one_case(ctx, rng, idx, out):
     import logging
     logging.disable(logging.CRITICAL)
@@ -472,7 +505,12 @@ def one_case(ctx, rng, idx, out):
                 return Delta(delta_file=f, bidirectional=bid, always_include_values=aiv, safe_to_import=safe)
         mk["file"] = from_file
         mk["path"] = lambda: Delta(delta_path=fn, bidirectional=bid, always_include_values=aiv, safe_to_import=safe)
-        for nm in ("file", "path"):
+        # the same through file objects in which the dump does not start at offset 0
+        case["real_file"] = real_file = (idx // 3) % 2 == 0
+        for src in OFFSET_SOURCES:
+            mk[src] = positioned_loader(ctx, d, src, real_file, bid, aiv, safe)
+        ctx.count("source:file-at-offset(" + ("disk" if real_file else "BytesIO") + ")")
+        for nm in ["file", "path"] + OFFSET_SOURCES:
             try:
                 same = typed_payload_eq(mk[nm]().diff, payload)
             except Exception as e:  # noqa
@@ -480,7 +518,7 @@ def one_case(ctx, rng, idx, out):
                          "Delta's own dump does not load from %s when safe_to_import=%r is passed: %s" % (nm, safe, type(e).__name__))
                 return
             if not same:
-                ctx.fail(dict(case, path="pickle", stage=nm), "Delta loaded from %s carries a different payload" % nm)
+                ctx.fail(dict(case, path="pickle", stage=nm, source=nm), "Delta loaded from %s carries a different payload" % nm)
         ctx.count("source:file+path")
     # behaviour on three bases
     bases = [t1, perturb(rng, t1), perturb(rng, perturb(rng, t1))]
@@ -1284,7 +1322,9 @@ def replay(ctx, data):
     else:
         try:
             src = case.get("source", "bytes")
-            if src in ("file", "path"):
+            if src in OFFSET_SOURCES:
+                d2 = positioned_loader(ctx, d, src, case.get("real_file", False), bid, aiv, safe)()
+            elif src in ("file", "path"):
                 fn = os.path.join(ctx.scratch, "replay_delta.bin")
                 with open(fn, "wb") as f:
                     d.dump(f)
@@ -1326,6 +1366,8 @@ def _reload_for_replay(case, dd, d, bid, aiv, safe, ctx):
         text = Delta(dd, bidirectional=bid, always_include_values=aiv, serializer=json_dumps).dumps()
         return Delta(text, deserializer=json_loads, bidirectional=bid, always_include_values=aiv)
     src = case.get("source", "bytes")
+    if src in OFFSET_SOURCES:
+        return positioned_loader(ctx, d, src, case.get("real_file", False), bid, aiv, safe)()
     if src in ("file", "path"):
         fn = os.path.join(ctx.scratch, "replay_delta.bin")
         with open(fn, "wb") as f:
